@@ -411,7 +411,7 @@ pub fn strategy() -> BoxedStrategy<c13::Case> {
         5 => (0usize..3).prop_map(|ty| Op::Browse { ty }),
         2 => (0usize..3).prop_map(|ty| Op::StopBrowse { ty }),
         1 => (0usize..3).prop_map(|ty| Op::BrowseCache { ty }),
-        3 => (0usize..3, 0u8..4, proptest::option::weighted(0.3, prop_oneof![Just(500u64), Just(5000), 1u64..400_000])).prop_map(|(host, case_var, timeout_ms)| Op::Resolve { host, case_var, timeout_ms }),
+        3 => (0usize..3, 0u8..4, proptest::option::weighted(0.3, prop_oneof![Just(500u64), Just(5000), Just(1000), Just(3000), Just(7000), Just(15_000), 1u64..400_000])).prop_map(|(host, case_var, timeout_ms)| Op::Resolve { host, case_var, timeout_ms }),
         1 => (0usize..3, 0u8..4).prop_map(|(host, case_var)| Op::StopResolve { host, case_var }),
         3 => (0usize..3, 0usize..3, prop_oneof![Just(120u32), Just(4500), Just(10), 2u32..5000]).prop_map(|(ty, inst, ttl)| Op::Announce { ty, inst, ttl, part: 0 }),
         2 => (0usize..3, 0usize..3, prop_oneof![Just(120u32), Just(4500), 20u32..5000], 1u8..4).prop_map(|(ty, inst, ttl, part)| Op::Announce { ty, inst, ttl, part }),
